@@ -10,6 +10,7 @@ import PyTough.Proofs.ThermoIapws
 import PyTough.Proofs.ThermoSat
 import PyTough.Proofs.ThermoSatExamples
 import PyTough.Proofs.ThermoSatOn
+import PyTough.Proofs.ThermoMono
 import PyTough.Proofs.ThermoVisc
 
 namespace Props.C14
@@ -81,6 +82,27 @@ theorem single_potential_r3 (d t : ℝ) (hd : d ≠ 0) (ht0 : 0 ≤ t) :
   Proofs.Iapws.single_potential_r3 d t hd ht0
 
 example : (500 : ℝ) ≠ 0 ∧ (0 : ℝ) ≤ 400 := by norm_num
+
+/-! ### density rises with pressure at fixed temperature -/
+
+/-- **Region 2, on six boxes from the ideal-gas limit up to 10 MPa**: at fixed `t`, `supst` returns a positive density
+    that strictly increases with pressure.  `ρ = p* / (R T γ_π)`, `γ_π = 1/π + γʳ_π`; on each box the ideal-gas term varies
+    faster than the residual sum can (`resM2 · P² < 1`, `resM1 · P < 1`, termwise bounds over the generated table evaluated
+    by `norm_num`).  `_partial`: region 2 between these boxes and the saturation / B23 line, and regions 1 and 3, are
+    not proved (sampled by the oracle). -/
+theorem density_monotone_r2_partial (t p1 p2 : ℝ) (ht : t ≤ 800) (h1 : 0 < p1) (h12 : p1 < p2)
+    (hbox : (350 ≤ t ∧ p2 ≤ 10000000) ∨ (300 ≤ t ∧ p2 ≤ 5000000) ∨ (250 ≤ t ∧ p2 ≤ 3000000) ∨
+            (200 ≤ t ∧ p2 ≤ 1500000) ∨ (100 ≤ t ∧ p2 ≤ 100000) ∨ (0 ≤ t ∧ p2 ≤ 600)) :
+    ∃ d1 u1 d2 u2, supst t p1 = Ret.pair d1 u1 ∧ supst t p2 = Ret.pair d2 u2 ∧ 0 < d1 ∧ d1 < d2 := by
+  rcases hbox with ⟨a, b⟩ | ⟨a, b⟩ | ⟨a, b⟩ | ⟨a, b⟩ | ⟨a, b⟩ | ⟨a, b⟩
+  · exact density_mono_box0 t p1 p2 a ht h1 h12 b
+  · exact density_mono_box1 t p1 p2 a ht h1 h12 b
+  · exact density_mono_box2 t p1 p2 a ht h1 h12 b
+  · exact density_mono_box3 t p1 p2 a ht h1 h12 b
+  · exact density_mono_box4 t p1 p2 a ht h1 h12 b
+  · exact density_mono_box5 t p1 p2 a ht h1 h12 b
+
+example : (400 : ℝ) ≤ 800 ∧ (0 : ℝ) < 100000 ∧ (100000 : ℝ) < 8000000 ∧ ((350 : ℝ) ≤ 400 ∧ (8000000 : ℝ) ≤ 10000000) := by norm_num
 
 /-! ### the region classifier names the region whose equation is valid -/
 
